@@ -153,17 +153,32 @@ func runInterrupts(t *kernel.Tape, opt core.Opts, only string) *core.Outcome {
 	var calls []*callRec
 	finished := false
 	noProgress := false
+	// in half of the C05 histories the compiled object lives on between the calls (resume in the
+	// same process); then, right after the first interrupt, another caller may start a fresh run
+	// on it under its own checkpoint id: it must behave like the first call did
+	reuse := only == "C05" && t.PlanBool(50)
+	probeFresh := reuse && failSet < 0 && withID && t.PlanBool(60)
+	var fresh *CallResult
+	var freshInfo *compose.InterruptInfo
 	s.Go("caller0", func() {
+		var kept compose.Runnable[M, M]
 		for k := 0; ; k++ {
 			if k >= bound {
 				noProgress = true
 				return
 			}
-			// "restart": everything but the store's bytes is rebuilt
-			r, err := (&builder{env: env, top: p, store: store}).Compile(context.Background(), p)
-			if err != nil {
-				env.problem("C05/recompile-failed", err.Error())
-				return
+			// "restart": everything but the store's bytes is rebuilt (unless the object is kept)
+			r := kept
+			if r == nil {
+				var err error
+				r, err = (&builder{env: env, top: p, store: store}).Compile(context.Background(), p)
+				if err != nil {
+					env.problem("C05/recompile-failed", err.Error())
+					return
+				}
+				if reuse {
+					kept = r
+				}
 			}
 			env.CurCall = k
 			c := &Call{Tag: "r0", Paradigm: paradigms[k%len(paradigms)], In: in, InCut: k % 3, StopAfter: -1}
@@ -189,6 +204,16 @@ func runInterrupts(t *kernel.Tape, opt core.Opts, only string) *core.Outcome {
 			if rec.info == nil || !withID || res.Panic != nil {
 				finished = true
 				return
+			}
+			if k == 0 && probeFresh {
+				env.CurCall = -7
+				c2 := &Call{Tag: "r1", Paradigm: c.Paradigm, In: in, InCut: c.InCut, StopAfter: -1, Opts: []compose.Option{compose.WithCheckPointID("cp-fresh")}}
+				fresh = doCall(env, r, c2)
+				if fresh.Err != nil {
+					if info, ok := compose.ExtractInterruptInfo(fresh.Err); ok {
+						freshInfo = info
+					}
+				}
 			}
 		}
 	})
@@ -274,7 +299,7 @@ func runInterrupts(t *kernel.Tape, opt core.Opts, only string) *core.Outcome {
 			if st := env.LastState[""]; st != nil {
 				total := 0
 				for s2, n := range env.CritCount {
-					if env.StateLineage[s2] == "" {
+					if env.StateLineage[s2] == "" && s2.Tag != "r1" {
 						total += n
 					}
 				}
@@ -286,6 +311,36 @@ func runInterrupts(t *kernel.Tape, opt core.Opts, only string) *core.Outcome {
 				if execsComparable(p, mr) && total > mr.StateN[""] {
 					viol("C05/state-handler-executed-again", fmt.Sprintf("the uninterrupted run makes %d handler/ProcessState invocations on the top-level state, the history with %d interrupts made %d:\n%s", mr.StateN[""], nInt, total, strings.Join(env.HandlerLog, "\n")))
 				}
+			}
+		}
+	}
+
+	// ---- a fresh run on the same compiled object, started while the first one is interrupted
+	if fresh != nil {
+		o.Stat("probe.fresh_run_on_kept_object", 1)
+		first := calls[0]
+		switch {
+		case fresh.Panic != nil:
+			viol("C05/fresh-run-after-interrupted-run-differs", fmt.Sprintf("the fresh run panicked: %v", fresh.Panic))
+		case p.Mode == ModePregel && !hasNonPregel(p):
+			// lock-step execution: the two calls are the same computation (in eager execution
+			// whether an interrupt-after point still stops the run depends on who finishes first)
+			if (freshInfo == nil) != (first.info == nil) {
+				viol("C05/fresh-run-after-interrupted-run-differs", fmt.Sprintf("the first call was interrupted (%s); a fresh run of the same input on the same compiled object returned out=%q err=%v", infoSig(first.info), Canon(fresh.Out), fresh.Err))
+			} else if infoSig(freshInfo) != infoSig(first.info) {
+				viol("C05/fresh-run-after-interrupted-run-differs", fmt.Sprintf("first call interrupted with %s, the fresh run with %s", infoSig(first.info), infoSig(freshInfo)))
+			}
+			var a, b []Exec
+			for _, e := range env.Execs {
+				if e.Tag == "r0" && e.Call == 0 {
+					a = append(a, Exec{Path: e.Path, Input: e.Input})
+				}
+				if e.Tag == "r1" {
+					b = append(b, Exec{Path: e.Path, Input: e.Input})
+				}
+			}
+			if d := diffExecs(a, b); d != "" {
+				viol("C05/fresh-run-after-interrupted-run-differs", "executions of the fresh run differ from those of the first call: "+d)
 			}
 		}
 	}
@@ -562,7 +617,7 @@ func init() {
 	core.Register(&core.Profile{
 		ID: "C05", Engine: "graphsim", Quick: 1500, Thorough: 40000, ThoroughSeeds: 3,
 		Run:  func(t *kernel.Tape, o core.Opts) *core.Outcome { return runInterrupts(t, o, "C05") },
-		Rule: "each run draws a plan in any mode, interrupt-before/after sets at every nesting level, nodes that answer InterruptAndRerun on their first 1-2 attempts (their pre-handler rebuilds the input from state), a paradigm per call, and one schedule; the history is: call with a checkpoint id, on interrupt throw the runnable away, compile the plan again, resume through a store that keeps only bytes, until the run completes; oracle: final output, multiset of non-aborted executions and the state counter equal the uninterrupted run of the same plan (reference model), bounded number of calls; 2 in 5 histories carry a typed nil pointer in an interface-typed slot of the input; nested-graph nodes have state handlers; the history may not make more handler/ProcessState invocations than the uninterrupted run; 1 in 12 histories types some outputs as any (known finding)",
+		Rule: "each run draws a plan in any mode, interrupt-before/after sets at every nesting level, nodes that answer InterruptAndRerun on their first 1-2 attempts (their pre-handler rebuilds the input from state), a paradigm per call, and one schedule; the history is: call with a checkpoint id, on interrupt throw the runnable away, compile the plan again, resume through a store that keeps only bytes, until the run completes; oracle: final output, multiset of non-aborted executions and the state counter equal the uninterrupted run of the same plan (reference model), bounded number of calls; 2 in 5 histories carry a typed nil pointer in an interface-typed slot of the input; nested-graph nodes have state handlers; the history may not make more handler/ProcessState invocations than the uninterrupted run; 1 in 12 histories types some outputs as any (known finding); half of the histories keep the compiled object between the calls, and after the first interrupt a fresh run under another checkpoint id is started on it (must behave like the first call; compared in full for pure Pregel plans)",
 		Real: append([]string{"internal/serialization (checkpoint bytes)"}, graphReal...), Stub: append([]string{"checkpoint store (in-memory byte map)"}, graphStub...),
 		Faults: []string{"interrupt before", "interrupt after", "interrupt and rerun", "nested interrupt", "repeated interrupts", "restart with only durable bytes", "paradigm change across resume"},
 	})
@@ -573,4 +628,38 @@ func init() {
 		Real: append([]string{"internal/serialization (checkpoint bytes)"}, graphReal...), Stub: append([]string{"checkpoint store (in-memory byte map with injected Set errors)"}, graphStub...),
 		Faults: []string{"interrupt before", "interrupt after", "interrupt and rerun", "nested interrupt", "store Set error", "no checkpoint id"},
 	})
+}
+
+// infoSig renders what an interrupt reports (without the state).
+func infoSig(i *compose.InterruptInfo) string {
+	if i == nil {
+		return "-"
+	}
+	srt := func(x []string) []string {
+		y := append([]string(nil), x...)
+		sort.Strings(y)
+		return y
+	}
+	var subs []string
+	for k := range i.SubGraphs {
+		subs = append(subs, k)
+	}
+	sort.Strings(subs)
+	out := fmt.Sprintf("before=%v after=%v rerun=%v", srt(i.BeforeNodes), srt(i.AfterNodes), srt(i.RerunNodes))
+	for _, k := range subs {
+		out += " " + k + ":{" + infoSig(i.SubGraphs[k]) + "}"
+	}
+	return out
+}
+
+func hasNonPregel(p *Plan) bool {
+	if p.Mode != ModePregel {
+		return true
+	}
+	for _, n := range p.Nodes {
+		if n.Kind == KSub && hasNonPregel(n.Sub) {
+			return true
+		}
+	}
+	return false
 }
